@@ -31,6 +31,17 @@ fn case_op_d(nanos: u64, off: i32, op: &TmOp, display: bool, acc: &mut Acc) {
         };
         acc.violation(&tm_op_name(op), class, json!({"kind": "op", "nanos": nanos.to_string(), "off": off, "op": machine::tm_op_to_json(op)}), format!("nanos {} offset {}", exp.0, exp.1), d);
     }
+    if let Some(assigned) = machine::tm_apply_assign(&t, op) {
+        acc.transitions += 1;
+        let same = match (&got, &assigned) {
+            (Out::Val(a), Out::Val(b)) => format!("{:?}", a) == format!("{:?}", b),
+            (Out::Panic(_), Out::Panic(_)) => true,
+            _ => false,
+        };
+        if !same {
+            acc.violation(&format!("{} (assign form)", tm_op_name(op)), "assign-form-differs-from-operator", json!({"kind": "op", "nanos": nanos.to_string(), "off": off, "op": machine::tm_op_to_json(op)}), got.show(), assigned.show());
+        }
+    }
     let wrapped = match op {
         TmOp::Unit(o, n) => {
             let d = *n as u128 * crate::props::c04::UNITS[o / 2 + 1].1 as u128;
